@@ -38,7 +38,8 @@ StartLine == IF "START" \in DOMAIN IOEnv
              THEN CHOOSE i \in 1..(Len(TraceLog) + 1) : ToString(i) = IOEnv.START
              ELSE 1
 
-CaseOf(r) == [n |-> r.n, deps |-> r.deps, list |-> r.list, missing |-> Range(r.missing),
+CaseOf(r) == [n |-> r.n, deps |-> r.deps, anti |-> (IF "anti" \in DOMAIN r THEN r.anti ELSE [m \in 1..r.n |-> <<>>]),
+              list |-> r.list, missing |-> Range(r.missing),
               nopost |-> Range(r.nopost), nodtor |-> Range(r.nodtor), noctor |-> Range(r.noctor)]
 LogOf(r)  == [i \in 1..Len(r.log) |-> Ev(r.log[i][1], r.log[i][2])]
 
